@@ -50,7 +50,7 @@ ffad523 C05 C05.boundary
 887f955 C08 C08.loopcond
 ebbf229+9a87f9b C08 C08.errexit
 d7c8347 C18 C18.fileid
-4c9c370 C20 C20.retry
+4c9c370+e4db022 C20 C20.retry
 508f87a C17 C17.reset
 200dc39 C07 C07.strategies
 e6f927d C16 C16.destreads
